@@ -89,6 +89,15 @@ pub fn run_clone(cfg: &Cfg, kt: KeyType, ops: &[Op], clone_at: usize, fork_at: u
     if !sa.same(&sb, false) {
         return Some(("clone-differs".into(), format!("the clone is not identical to the original at the moment of cloning: original {} caps {:?}; clone {} caps {:?}{}", sa.describe(kind), sa.caps, sb.describe(kind), sb.caps, if sa.est != sb.est { " (estimator state differs)" } else { "" }), clone_at));
     }
+    // the clone must also *answer* like the original: frequency estimates go through the key
+    // hasher, which the raw estimator digest does not cover
+    {
+        let uni: Vec<u32> = (0..12).collect();
+        let (ea, eb) = (a.estimates(&uni), b.estimates(&uni));
+        if ea != eb {
+            return Some(("clone-differs".into(), format!("frequency estimates of keys 0..12 differ between original {:?} and clone {:?} right after clone()", ea, eb), clone_at));
+        }
+    }
     // no sharing: distinct key/value objects and distinct node addresses
     if kt == KeyType::Tracked {
         for (la, lb) in sa.lists.iter().zip(sb.lists.iter()) {
@@ -256,8 +265,44 @@ pub fn c16_suite(ctx: &Ctx) -> ShardOut {
     out
 }
 
+/// TinyLFU with the crate's DefaultKeyHasher (randomly keyed per instance): a clone must hash
+/// keys like the original, or its copied counters mean nothing
+fn tinylfu_clone_default(out: &mut ShardOut, rng: &mut Rng) {
+    use caches::lfu::TinyLFU;
+    for round in 0..30u32 {
+        let mut a = match TinyLFU::<u64>::new(64, 1000, 0.01) {
+            Ok(t) => t,
+            Err(_) => return,
+        };
+        let keys: Vec<u64> = (0..16).map(|_| rng.next()).collect();
+        let r = guarded(|| {
+            for (i, k) in keys.iter().enumerate() {
+                for _ in 0..(i % 5) {
+                    a.increment(k);
+                }
+            }
+            let b = a.clone();
+            for k in &keys {
+                if a.estimate(k) != b.estimate(k) || a.contains(k) != b.contains(k) {
+                    return Some(format!("TinyLFU (default key hasher) clone answers differently: estimate({}) = {} vs {}", k, a.estimate(k), b.estimate(k)));
+                }
+            }
+            None
+        });
+        out.cov.monitored += 1;
+        out.cov.triples.insert(format!("clone|tinylfu-default-hasher|round{}", round % 3));
+        if let Ok(Some(d)) = r {
+            let mut extra = BTreeMap::new();
+            extra.insert("note".into(), "tinylfu clone scenario (re-run the shard)".into());
+            out.add(mk_found("C16", "tinylfu-clone", Kind::Wtlfu, d, &Cfg::lru(1), KeyType::Tracked, &[], extra, [0; 4], 0));
+            return;
+        }
+    }
+}
+
 fn tinylfu_clone(out: &mut ShardOut, rng: &mut Rng, n: u64) {
     use caches::lfu::TinyLFUBuilder;
+    tinylfu_clone_default(out, rng);
     for _ in 0..n {
         let size = *rng.pick(&[1usize, 4, 16, 100]);
         let samples = *rng.pick(&[1usize, 3, 8, 50]);
